@@ -21,7 +21,7 @@ func init() {
 			"valid-configuration domain as in DESIGN.md §3 C04 (min<=initial, min<=max, smoothing in (0,1], queue allowance <= max and <= initial, window >= 100 ms, window size >= 10)"},
 	})
 	Register(&Prop{
-		ID: "C06", Bubble: false, Run: runC06, QuickRuns: 2500,
+		ID: "C06", Bubble: true, Run: runC06, QuickRuns: 2500,
 		Rule: "one run = AIMD / Vegas / Gradient in a state reached by a seeded prefix history (0..300 samples incl. faults), then (i) every drop sample of the whole history is checked for 'never raises' (AIMD: exact back-off value by rational arithmetic for dyadic ratios), (ii) a sustained run of drop samples with constant rtt (0, 1, baseline, multiples, 2^40) must reach the floor within a configuration-derived number of samples; " +
 			"non-trivial = the prefix changed the estimate and the sustained run had to move the estimate; distinct = distinct choice tapes",
 		Real:        []string{"limit.AIMDLimit", "limit.VegasLimit", "limit.GradientLimit", "limit/functions", "measurements.MinimumMeasurement"},
@@ -144,6 +144,10 @@ func aimdExpected(old int, c algoCfg) (int, bool) {
 
 func runC06(r *Run) {
 	t := r.T
+	if t.Chance(6, "concurrent-aimd") {
+		runConcurrentAIMD(r, 50, "C06")
+		return
+	}
 	cfg := drawAlgoCfg(t, []string{"aimd", "vegas", "gradient"}, nil)
 	if cfg.Name == "vegas" && cfg.ProbeMult < 4 {
 		cfg.ProbeMult = 4
@@ -274,7 +278,7 @@ func rttClass(rtt int64) string {
 func runC07(r *Run) {
 	t := r.T
 	if t.Chance(8, "concurrent-aimd") {
-		runC07ConcurrentAIMD(r)
+		runConcurrentAIMD(r, 10, "C07")
 		return
 	}
 	cfg := drawAlgoCfg(t, []string{"aimd", "vegas", "gradient", "gradient2"}, nil)
@@ -468,7 +472,7 @@ func runC07(r *Run) {
 // runC07ConcurrentAIMD: the demand gate must also hold when samples are reported from several
 // goroutines: whatever the interleaving, the final estimate must be one that some sequential
 // order of the (atomic) samples produces. AIMD's rule is exact, so all orders are enumerated.
-func runC07ConcurrentAIMD(r *Run) {
+func runConcurrentAIMD(r *Run, dropPct int, who string) {
 	t := r.T
 	initial := 2 + t.Intn(12, "initial")
 	inc := 1 + t.Intn(3, "inc")
@@ -484,11 +488,11 @@ func runC07ConcurrentAIMD(r *Run) {
 		n := 1 + t.Intn(2, "samples")
 		for k := 0; k < n; k++ {
 			f := []int{initial, initial - 1, initial + inc, initial / 2, initial + 2*inc}[t.Intn(5, "inflight")]
-			scripts[i] = append(scripts[i], smp{f: f, drop: t.Chance(10, "drop")})
+			scripts[i] = append(scripts[i], smp{f: f, drop: t.Chance(dropPct, "drop")})
 			total++
 		}
 	}
-	r.Mixf("C07 concurrent AIMD initial=%d inc=%d scripts=%v", initial, inc, scripts)
+	r.Mixf("%s concurrent AIMD initial=%d inc=%d scripts=%v", who, initial, inc, scripts)
 	s := r.NewSched()
 	for i := range scripts {
 		sc := scripts[i]
@@ -535,6 +539,6 @@ func runC07ConcurrentAIMD(r *Run) {
 		r.Nontrivial = true
 	}
 	if !reach[final] {
-		r.Fail("concurrent-samples-not-serializable", "aimd", "samples %v reported concurrently left the estimate at %d (initial %d, increment %d); no sequential order of these samples gives that value (possible: %v) - some sample raised the limit although its in-flight was below the estimate in force when it was applied", scripts, final, initial, inc, reach)
+		r.Fail("concurrent-samples-not-serializable", "aimd", "samples %v reported concurrently left the estimate at %d (initial %d, increment %d); no sequential order of these samples gives that value (possible: %v) - an update was lost or applied to a stale estimate (a drop must lower, an unsaturated sample must not raise the estimate in force when it is applied)", scripts, final, initial, inc, reach)
 	}
 }
